@@ -479,25 +479,34 @@ def meas_check(case):
                 return viol("pretty-bad operator != (I - PGM_i)/(n-1)", site="pretty_bad_measurement:value")
         return ok(True, obs=round(p_pgm, 7))
     if case["kind"] == "measure":
-        rho = catalog.density(d, case["state"])
+        rho_c = catalog.density(d, case["state"])
         ks, complete = build_measurement(d, case["meas"])
-        for upd in (False, True):
-            out, exc = call(measure, rho, list(ks), state_update=upd)
-            if exc is not None:
-                return viol("measure raised on a complete measurement: " + exc_text(exc), site="measure:exception")
-            tot = 0.0
-            for K, o in zip(ks, out):
-                p = o[0] if upd else o
-                born = float(np.trace(K @ rho @ K.conj().T).real)
-                tot += p
-                if abs(p - born) > 1e-9:
-                    return viol("probability is not Tr(K rho K^dagger)", site="measure:born", observed=float(p), expected=born)
-                if upd and born > 1e-6:
-                    post = np.asarray(o[1])
-                    if abs(np.trace(post) - 1) > 1e-8 or np.abs(post - K @ rho @ K.conj().T / born).max() > 1e-8:
-                        return viol("post-measurement state is not K rho K^dagger / p", site="measure:post")
-            if abs(tot - 1) > 1e-8:
-                return viol("probabilities of a complete measurement do not sum to one", site="measure:sum", observed=tot)
+        # the state is offered in every dtype that represents it exactly (complex; float if real; integer if 0/1-valued): the
+        # post-measurement state must not be cast to the input's dtype (after seeded change C19-6)
+        variants = [rho_c]
+        if np.abs(rho_c.imag).max() == 0:
+            variants.append(np.ascontiguousarray(rho_c.real))
+            if np.all(np.isin(rho_c.real, (0.0, 1.0))):
+                variants.append(rho_c.real.astype(np.int64))
+        for rho in variants:
+          for upd in (False, True):
+              out, exc = call(measure, rho, list(ks), state_update=upd)
+              if exc is not None:
+                  return viol("measure raised on a complete measurement: " + exc_text(exc), site="measure:exception")
+              tot = 0.0
+              for K, o in zip(ks, out):
+                  p = o[0] if upd else o
+                  born = float(np.trace(K @ rho @ K.conj().T).real)
+                  tot += p
+                  if abs(p - born) > 1e-9:
+                      return viol("probability is not Tr(K rho K^dagger)", site="measure:born", observed=float(p), expected=born)
+                  if upd and born > 1e-6:
+                      post = np.asarray(o[1])
+                      if abs(np.trace(post) - 1) > 1e-8 or np.abs(post - K @ rho @ K.conj().T / born).max() > 1e-8:
+                          return viol("post-measurement state is not K rho K^dagger / p", site="measure:post")
+              if abs(tot - 1) > 1e-8:
+                  return viol("probabilities of a complete measurement do not sum to one", site="measure:sum", observed=tot)
+        rho = rho_c
         # single operator form
         p1, exc = call(measure, rho, ks[0])
         if exc is not None or abs(p1 - np.trace(ks[0] @ rho @ ks[0].conj().T).real) > 1e-9:
